@@ -441,6 +441,7 @@ package server
 //@   ensures [C08,C16:same_line] result != nil ==> result.Start.Line == pos.Line && result.End == pos
 //@   ensures [C08,C16:start_le_cursor] result != nil ==> 0 <= startByte && startByte <= byteCol
 //@   ensures [C08,C16:start_utf16] result != nil ==> result.Start.Character == b2u(line, 0, 0, startByte)
+//@   ensures [C16:account_fragment_start] result != nil && ctxType == ContextAccount && !hasprefix(line, "account ") && !hasprefix(line, "apply account ") ==> startByte == trimleft(substr(line, 0, byteCol), " \t")
 //@   loop 1 invariant 0 <= startByte && startByte <= byteCol && byteCol <= len(line)
 //@   loop 1 decreases byteCol - startByte
 
